@@ -158,6 +158,19 @@ fn min_len(f: Family, c: Container) -> usize {
 const TUPLE_LENS: &[usize] = &[2, 1, 3, 2, 3, 4, 5, 6, 7, 8, 9, 10, 11, 12, 0, 4];
 const ARRAY_CHOICES: &[usize] = &[2, 1, 3, 2, 3, 4, 5, 6, 7, 8, 12, 16, 0, 4];
 const VEC_LENS: &[usize] = &[2, 1, 3, 2, 3, 4, 5, 6, 7, 8, 9, 10, 11, 12, 0, 4];
+/// lengths between the small ones and the boundaries (a scan with a fixed prime
+/// stride, a table of 32 slots, ... can go wrong at any of them; seeded change P04-a
+/// needs a multiple of 13). Chosen by the low nibble of the byte that picks from
+/// VEC_LENS, so that every other input decodes as before.
+const MID_LENS: &[usize] = &[13, 14, 15, 17, 18, 19, 21, 25, 26, 27, 31, 32, 33, 39, 47, 52];
+fn vec_len(c: &mut Cur) -> usize {
+    let b = c.byte() as usize;
+    if b & 15 == 15 {
+        MID_LENS[b >> 4]
+    } else {
+        VEC_LENS[b >> 4]
+    }
+}
 const BIG_LENS: &[usize] = &[22, 23, 24, 63, 64, 65, 66, 100, 128, 129, 200, 255, 256, 257, 300, 1025, 1100];
 
 pub fn gen_script(c: &mut Cur, p: &Profile, flavor: Flavor, nleaves_hint: usize) -> LeafSpec {
@@ -298,7 +311,7 @@ pub fn gen_comb(c: &mut Cur, p: &Profile, fam: Family, depth: usize, nests_left:
             }
         }
         Family::FutGroup | Family::StrGroup => {
-            let n = if depth == 0 { VEC_LENS[c.choice(VEC_LENS.len())] } else { 1 + c.choice(3) };
+            let n = if depth == 0 { vec_len(c) } else { 1 + c.choice(3) };
             let container = if c.coin(100) { Container::KeyedGroup } else { Container::Group };
             let children = gen_children(c, p, fam, n, depth, nests_left);
             CombSpec { family: fam, container, children, variant: 0 }
@@ -312,7 +325,13 @@ pub fn gen_comb(c: &mut Cur, p: &Profile, fam: Family, depth: usize, nests_left:
                 Container::Array => {
                     // now and then an array beyond a one-byte counter
                     if depth == 0 && c.coin(if p.big_vec { 10 } else { 3 }) {
-                        [256usize, 300][c.choice(2)]
+                        // (a quarter of these: 13, the one odd prime length instantiated)
+                        let b = c.byte();
+                        if b & 0x60 == 0x60 {
+                            13
+                        } else {
+                            [256usize, 300][(b >> 7) as usize]
+                        }
                     } else {
                         ARRAY_CHOICES[c.choice(ARRAY_CHOICES.len())]
                     }
@@ -324,7 +343,7 @@ pub fn gen_comb(c: &mut Cur, p: &Profile, fam: Family, depth: usize, nests_left:
                     if depth == 0 && c.coin(if p.big_vec { 40 } else { 9 }) {
                         BIG_LENS[c.choice(BIG_LENS.len())]
                     } else {
-                        VEC_LENS[c.choice(VEC_LENS.len())]
+                        vec_len(c)
                     }
                 }
             };
